@@ -328,6 +328,15 @@ func TestC02(t *testing.T) {
 				h.R.Count(fmt.Sprintf("v%s exhaustive: every combination of the first %d metrics, built by Set and round-tripped", v.Name, k), int64(sp.size()))
 			}
 		}
+		// every window of 6 consecutive metrics x every combination of their values, on three backgrounds
+		for vi, v := range spec.Versions {
+			ws := newWindowSpace(vi, 8)
+			Enum(h, "object", ws.size(), func(i int) PrefixCase { return PrefixCase{Ver: vi, A: ws.assignment(i)} }, nil, checkPrefixRoundTrip)
+			if !h.replaying() {
+				h.R.AddExact(int64(ws.size()), int64(ws.size()))
+				h.R.Count(fmt.Sprintf("v%s exhaustive: every window of 8 consecutive metrics x all value combinations x 3 backgrounds, round-tripped", v.Name), int64(ws.size()))
+			}
+		}
 		if env.Tier == "thorough" && !env.Light {
 			c02AllV2(h)
 		}
@@ -1013,6 +1022,12 @@ func TestC16(t *testing.T) {
 	}
 	if env.Shards <= 1 {
 		Enum(h, "enumerated", len(cases), func(i int) NomCase { return cases[i] }, nil, checkNomenclature)
+		ws := newWindowSpace(3, 8)
+		Enum(h, "enumerated", ws.size(), func(i int) NomCase { return NomCase{A: ws.assignment(i)} }, nil, checkNomenclature)
+		if !h.replaying() {
+			h.R.AddExact(int64(ws.size()), int64(ws.size()))
+			h.R.Count("windows: every 8 consecutive metrics x all value combinations x 3 backgrounds", int64(ws.size()))
+		}
 		if !h.replaying() {
 			h.R.AddExact(int64(len(cases)), int64(len(cases)-10))
 			h.R.Count("exactly one optional metric defined (exhaustive: metric x value x 10 backgrounds)", int64(nSingles-10))
